@@ -532,6 +532,9 @@ func extKey(fn *ssa.Function) string {
 }
 
 func (w *World) contractFor(fn *ssa.Function) *FuncContract {
+	if fc, ok := w.cons.Funcs["::"+strings.ReplaceAll(fn.String(), ",", "")]; ok {
+		return fc
+	}
 	if fc, ok := w.cons.Funcs[funcKey(fn)]; ok {
 		return fc
 	}
@@ -603,6 +606,8 @@ func (w *World) prelude() string {
 (declare-fun sv (Str) SV)
 (declare-fun alive0 (Int) Bool)
 (declare-fun aliveA0 (Int) Bool)
+(declare-fun idx (Int Int) Int)
+(assert (forall ((o Int) (i Int)) (! (= (idx o i) (+ o i)) :pattern ((idx o i)))))
 (define-fun b2i ((b Bool)) Int (ite b 1 0))
 (define-fun max ((a Int) (b Int)) Int (ite (>= a b) a b))
 (define-fun min ((a Int) (b Int)) Int (ite (<= a b) a b))
